@@ -55,7 +55,7 @@ func (e *OwnErr) Error() string { return "E" + strconv.Itoa(e.ID) }
 // PanicVal is the non-error, non-string panic payload (P=3).
 type PanicVal struct{ ID int }
 
-func (p PanicVal) String() string { return "PV" + strconv.Itoa(p.ID) }
+// (deliberately neither an error nor a fmt.Stringer: the parser has to render it with %v)
 
 // Trace collects the events of one parse. One Trace per Parse call, handed over through the
 // GlobalStore("mon", tr) option, so concurrent parses never share monitor state.
@@ -124,7 +124,7 @@ func PanicMsg(kind, id int) string {
 	case 2:
 		return "PS" + strconv.Itoa(id)
 	case 3:
-		return "PV" + strconv.Itoa(id)
+		return "{" + strconv.Itoa(id) + "}"
 	}
 	return ""
 }
